@@ -88,5 +88,32 @@ func TestVerifReplayC08(t *testing.T) {
 			}
 		}
 	}
+	// batches of several commitments of different byte lengths, in every order of three magnitudes
+	mags := []*big.Int{cands[len(cands)-1], big.NewInt(1), new(big.Int).Lsh(big.NewInt(1), 100), big.NewInt(0), cands[len(cands)-2]}
+	for a := range mags {
+		for b := range mags {
+			for c := range mags {
+				ids := []big.Int{*mags[a], *mags[b], *mags[c]}
+				p := InsertionParameters{StartIndex: 4294967295, PreRoot: *big.NewInt(5), PostRoot: *mags[2], IdComms: ids}
+				if err := p.ComputeInputHashInsertion(); err != nil {
+					fmt.Printf("REPLAY-FAIL {\"function\":\"ComputeInputHashInsertion\",\"error\":%q}\n", err.Error())
+					return
+				}
+				var data []byte
+				data = binary.BigEndian.AppendUint32(data, 4294967295)
+				data = append(data, verifPad32(big.NewInt(5))...)
+				data = append(data, verifPad32(mags[2])...)
+				for i := range ids {
+					data = append(data, verifPad32(&ids[i])...)
+				}
+				want := verifRefHash(data)
+				if want.Cmp(&p.InputHash) != 0 {
+					fmt.Printf("REPLAY-FAIL {\"function\":\"ComputeInputHashInsertion\",\"StartIndex\":4294967295,\"PreRoot\":\"5\",\"PostRoot\":\"%s\",\"IdComms\":[\"%s\",\"%s\",\"%s\"],\"got\":\"0x%s\",\"want\":\"0x%s\"}\n",
+						mags[2], &ids[0], &ids[1], &ids[2], p.InputHash.Text(16), want.Text(16))
+					return
+				}
+			}
+		}
+	}
 	fmt.Println("REPLAY-OK all candidate inputs agree with the reference packing")
 }
